@@ -96,6 +96,10 @@ fn op_render(req: &Value) -> Value {
         };
         match res {
             Ok(r) => {
+                if req.get("render_each").and_then(|b| b.as_bool()).unwrap_or(false) {
+                    // render the intermediate structure (and discard the text): rendering must be free of side effects
+                    let _ = r.to_serde_struct(&Options::quick_xml_de());
+                }
                 steps.push(json!({"ok": true}));
                 trees.push(Value::String(format!("{:?}", r)));
                 root = Some(r);
@@ -194,6 +198,9 @@ fn op_events(req: &Value) -> Value {
                         }
                     }
                     j["attrs"] = Value::Array(attrs);
+                }
+                if let Event::End(e) = &ev {
+                    j["name"] = bytes_json(e.name().as_ref());
                 }
                 match &ev {
                     Event::Text(t) => j["content"] = bytes_json(t.as_ref()),
